@@ -22,8 +22,9 @@ pub enum Case {
 
 fn strategy(tier: Tier) -> BoxedStrategy<Case> {
     prop_oneof![
-        3 => tree::opts_tree_strategy(TreeCfg::full()).prop_map(|(opts, tree)| Case::Single { opts, tree }),
-        1 => history_strategy(hist_cfg(tier)).prop_map(Case::Hist),
+        300 => tree::opts_tree_strategy(TreeCfg::full()).prop_map(|(opts, tree)| Case::Single { opts, tree }),
+        1 => tree::wide_strategy(tier == Tier::Thorough).prop_map(|(opts, tree)| Case::Single { opts, tree }),
+        100 => history_strategy(hist_cfg(tier)).prop_map(Case::Hist),
     ]
     .boxed()
 }
